@@ -7,6 +7,7 @@
    objects the C allocates, sizeof values regenerated from the C). *)
 From Lhasa Require Import Base ListN Generated DecBase InputStream Header BasicReader Decoder
   P_Decoder P_DecoderInv P_HeaderSafe P_Intact P_Bounds.
+From Lhasa Require Import Fs FsRun ListOut CliExtract CliMain P_ListOut P_CliNoFault P_CliRetBytes P_CliReturns.
 Local Open Scope N_scope.
 
 (* Every call of the header iteration returns (streams below 12 MiB: the model's
@@ -109,6 +110,59 @@ Theorem retained_headers_bound : forall mktime n r hs r',
     5 * ravail r + nlen hs * (sizeof_LHAFileHeader + 14) /\ ravail r' <= ravail r.
 Proof. exact P_Bounds.retained_headers_bound. Qed.
 
+(* --- the tool returns (P_CliReturns.v): for every argv, standard input and filesystem,
+       when the archive that the command opens consists of bytes and is shorter than
+       EXT_LIMIT = 12 MiB (the model's fuel for the extended-header walk of a level-1
+       header; every other loop of the model has fuel for 2^27 bytes or more), the run
+       of lha is [Ok _].  argv_mode / archive_ok: P_CliReturns.v (the command letter; the
+       bytes of the named file in the filesystem model, or of standard input for "-").
+       bytes_ok: every entry of the list is below 256 (the model's type of a byte is N). --- *)
+
+(* l, v: needs the C library's localtime to return a month in 0..11, as for C08 *)
+Theorem list_commands_return : forall mktime junk localtime now stdin_kind strerror argv stdin s,
+  argv_mode argv = Some MODE_LIST \/ argv_mode argv = Some MODE_LIST_VERBOSE ->
+  lt_ok localtime -> archive_ok argv stdin s ->
+  exists r, lha_main mktime junk localtime now stdin_kind strerror argv stdin s = Ok r.
+Proof. exact P_CliReturns.list_commands_return. Qed.
+
+(* t, p: every member is decoded, by whatever decoder its header names *)
+Theorem test_and_print_return : forall mktime junk localtime now stdin_kind strerror argv stdin s,
+  argv_mode argv = Some MODE_CRC_CHECK \/ argv_mode argv = Some MODE_PRINT ->
+  archive_ok argv stdin s ->
+  exists r, lha_main mktime junk localtime now stdin_kind strerror argv stdin s = Ok r.
+Proof. exact P_CliReturns.test_and_print_return. Qed.
+
+(* x, e: the overwrite prompt reads standard input (below 2^40 bytes: the fuel of the prompt
+   loop); at the end of input the tool exits; the deferred directories and links get their
+   second pass *)
+Theorem extract_returns : forall mktime junk localtime now stdin_kind strerror argv stdin s,
+  argv_mode argv = Some MODE_EXTRACT ->
+  archive_ok argv stdin s -> nlen stdin < 1099511627776 ->
+  exists r, lha_main mktime junk localtime now stdin_kind strerror argv stdin s = Ok r.
+Proof. exact P_CliReturns.extract_returns. Qed.
+
+(* any argv (also the help page and an archive that cannot be opened) *)
+Theorem lha_main_returns : forall mktime junk localtime now stdin_kind strerror argv stdin s,
+  lt_ok localtime -> archive_ok argv stdin s -> nlen stdin < 1099511627776 ->
+  exists r, lha_main mktime junk localtime now stdin_kind strerror argv stdin s = Ok r.
+Proof. exact P_CliReturns.lha_main_returns. Qed.
+
+(* the test case of the differential test; "plain": no set-up operations, the archive named *)
+Theorem cli_run_returns : forall mktime strerror uid0 now mtime argv archive stdin setup,
+  archive_ok argv stdin (cli_fs_init uid0 archive mtime setup) -> nlen stdin < 1099511627776 ->
+  exists r, cli_run mktime gmtime_utc strerror uid0 now mtime argv archive stdin setup = Ok r.
+Proof. exact P_CliReturns.cli_run_returns. Qed.
+
+Theorem cli_run_returns_plain : forall mktime strerror uid0 now mtime progname cmd filters archive stdin,
+  bytes_ok archive -> nlen archive < EXT_LIMIT -> nlen stdin < 1099511627776 ->
+  exists r, cli_run mktime gmtime_utc strerror uid0 now mtime (progname :: cmd :: arc_path :: filters) archive stdin [] = Ok r.
+Proof. exact P_CliReturns.cli_run_returns_plain. Qed.
+
+(* what the theorems rest on: a header parsed from bytes declares less than 2^32 and took
+   at least 22 bytes of the stream *)
+Theorem header_takes_22_bytes : ltac:(let t := type of P_CliRetBytes.header_read_SW in exact t).
+Proof. exact P_CliRetBytes.header_read_SW. Qed.
+
 Print Assumptions next_file_returns.
 Print Assumptions skip_returns.
 Print Assumptions end_is_final.
@@ -123,3 +177,10 @@ Print Assumptions heap_bound.
 Print Assumptions header_growth_capped.
 Print Assumptions largest_decoder_state.
 Print Assumptions retained_headers_bound.
+Print Assumptions list_commands_return.
+Print Assumptions test_and_print_return.
+Print Assumptions extract_returns.
+Print Assumptions lha_main_returns.
+Print Assumptions cli_run_returns.
+Print Assumptions cli_run_returns_plain.
+Print Assumptions header_takes_22_bytes.
